@@ -18,3 +18,25 @@ mod escape;
 mod js_bindings;
 mod path;
 mod proc_gen;
+
+/// Verification hooks: read-only access to crate-private pure functions.
+#[cfg(glass_easel_verif)]
+pub mod verif_hooks {
+    pub use crate::parse::verif_trace;
+
+    pub fn gen_lit_str(s: &str) -> String {
+        crate::escape::gen_lit_str(s)
+    }
+
+    pub fn get_var_name(var_id: usize) -> String {
+        crate::proc_gen::verif_get_var_name(var_id)
+    }
+
+    pub fn path_resolve(base: &str, rel: &str) -> String {
+        crate::path::resolve(base, rel)
+    }
+
+    pub fn path_normalize(path: &str) -> String {
+        crate::path::normalize(path)
+    }
+}
